@@ -4,8 +4,11 @@ use crate::driver::PropSpec;
 pub mod c01;
 pub mod c04;
 pub mod c12;
+pub mod c13;
+pub mod c14;
+pub mod c15;
 pub mod common;
 
 pub fn all() -> Vec<PropSpec> {
-    vec![c01::spec(), c04::spec(), c12::spec()]
+    vec![c01::spec(), c04::spec(), c12::spec(), c13::spec(), c14::spec(), c15::spec()]
 }
